@@ -293,4 +293,125 @@ Section PopFacts.
       destruct (cross_or_climb_ok _ _ _ _ _ HP2 Hn2 H) as (A & B & _). split; [exact A|].
       eapply is_suffix_trans; [exact B|]. eapply is_suffix_trans; [apply is_suffix_cons|exact S1].
   Qed.
+
+  (* ---------- genetic algorithm ---------- *)
+  Lemma recombine_ok parents t child t' : Forall (in_box sp) parents -> recombine sp parents t = Ok (child, t') ->
+    in_box sp child /\ is_suffix t' t.
+  Proof.
+    intros HP H. unfold recombine in H.
+    destruct (read_choices (length sp) (zlen parents) t) as [[ch t1]|] eqn:E1; cbn [bind fst snd] in H; [|discriminate].
+    destruct (read_choices_spec _ _ _ _ _ E1) as (Lc & S1 & _).
+    destruct (choose_k ch parents 0) as [c0|] eqn:E2; cbn [bind] in H; [|discriminate]. inversion H; subst.
+    split; [apply (choose_k_box parents HP ch 0%nat child); [cbn; lia|exact E2]|exact S1].
+  Qed.
+
+  Lemma make_offspring_ok parents : Forall (in_box sp) parents -> forall k t c qs t' c', nan_free t ->
+    make_offspring sp cons fuel k parents t c = Ok (qs, t', c') -> Forall emit qs /\ is_suffix t' t.
+  Proof.
+    intros HP. induction k as [|k IH]; intros t c qs t' c' Hn H; cbn [make_offspring] in H.
+    - inversion H; subst. split; [constructor|apply is_suffix_refl].
+    - destruct (recombine sp parents t) as [[ch t0]|] eqn:ER; cbn [bind fst snd] in H; [|discriminate].
+      destruct (recombine_ok _ _ _ _ HP ER) as (Hb & S0).
+      assert (Hn0 : nan_free t0) by (eapply nan_free_suffix; eassumption).
+      destruct (constraint_loop sp cons fuel fuel ch t0 c) as [[[q t1] c1]|] eqn:EC; cbn [bind] in H; [|discriminate].
+      destruct (constraint_loop_ok _ _ _ _ _ _ _ Hb Hn0 EC) as (Hq & S1 & _).
+      assert (Hn1 : nan_free t1) by (eapply nan_free_suffix; eassumption).
+      destruct (make_offspring sp cons fuel k parents t1 c1) as [[[qs0 t2] c2]|] eqn:EM; cbn [bind] in H; [|discriminate].
+      inversion H; subst. destruct (IH _ _ _ _ _ Hn1 EM) as (A & B). split; [constructor; assumption|].
+      eapply is_suffix_trans; [exact B|]. eapply is_suffix_trans; eassumption.
+  Qed.
+
+  Lemma replace_nth_forall {A} (P : A -> Prop) l i x : Forall P l -> P x -> Forall P (replace_nth l i x).
+  Proof.
+    intros HL Hx. revert i. induction HL as [|y l Hy HL' IH]; intros i; cbn; [constructor|].
+    destruct i; constructor; try assumption. apply IH.
+  Qed.
+
+  Lemma map_res_nth_forall (P : pos -> Prop) (l : list pos) idx out : Forall P l -> map_res (nth_nowrap l) idx = Ok out -> Forall P out.
+  Proof.
+    intros HL. revert out. induction idx as [|i idx IH]; intros out H; cbn [map_res] in H.
+    - inversion H; constructor.
+    - destruct (nth_nowrap l i) as [x|] eqn:E; cbn [bind] in H; [|discriminate].
+      destruct (map_res (nth_nowrap l) idx) as [ys|] eqn:E2; cbn [bind] in H; [|discriminate]. inversion H; subst.
+      constructor; [rewrite Forall_forall in HL; apply HL; eapply nth_nowrap_in; eassumption|apply IH; reflexivity].
+  Qed.
+
+  Lemma read_distinct_suffix k hi : forall seen t zs t', read_distinct k hi seen t = Ok (zs, t') -> is_suffix t' t.
+  Proof.
+    induction k as [|k IH]; intros seen t zs t' H; cbn in H; [inversion H; apply is_suffix_refl|].
+    destruct t as [|[z| | | |] t0]; try discriminate. destruct (_ && _); [|discriminate].
+    destruct (read_distinct k hi (z :: seen) t0) as [[zs0 t1]|] eqn:E; cbn [bind fst snd] in H; [|discriminate]. inversion H; subst.
+    eapply is_suffix_trans; [eapply IH; exact E|apply is_suffix_cons].
+  Qed.
+
+  Lemma ga_crossover_ok n_parents n_off news t qs t' c : Forall (in_box sp) news -> nan_free t ->
+    ga_crossover sp cons fuel n_parents n_off news t = Ok (qs, t', c) -> Forall emit qs /\ is_suffix t' t.
+  Proof.
+    intros HP Hn H. unfold ga_crossover in H. destruct t as [|[| rm re | | |] t1]; try discriminate.
+    assert (Hn1 : nan_free t1) by (apply nan_free_tail in Hn; exact Hn).
+    assert (HB : Forall (in_box sp) (firstn (Z.to_nat (zlen news / 2)) news)).
+    { apply Forall_forall. intros x Hx. rewrite Forall_forall in HP. apply HP.
+      rewrite <- (firstn_skipn (Z.to_nat (zlen news / 2)) news). apply in_or_app. left. exact Hx. }
+    assert (HW : Forall (in_box sp) (skipn (Z.to_nat (zlen news / 2)) news)).
+    { apply Forall_forall. intros x Hx. rewrite Forall_forall in HP. apply HP.
+      rewrite <- (firstn_skipn (Z.to_nat (zlen news / 2)) news). apply in_or_app. right. exact Hx. }
+    match type of H with context[bind ?X _] => destruct X as [[best1 t3]|] eqn:EB end; cbn [bind] in H; [|discriminate].
+    assert (HB1 : Forall (in_box sp) best1 /\ is_suffix t3 t1).
+    { destruct (negb (dyadic_gt rm re 5764607523034235 (-59))).
+      - destruct t1 as [|[j| | | |] [|[i| | | |] t2]]; try discriminate.
+        destruct (negb _); [discriminate|].
+        destruct (nth_nowrap (skipn (Z.to_nat (zlen news / 2)) news) j) as [w|] eqn:EW; cbn [bind] in EB; [|discriminate].
+        inversion EB; subst. split.
+        + apply replace_nth_forall; [exact HB|]. rewrite Forall_forall in HW. apply HW. eapply nth_nowrap_in; eassumption.
+        + eapply is_suffix_trans; apply is_suffix_cons.
+      - inversion EB; subst. split; [exact HB|apply is_suffix_refl]. }
+    destruct HB1 as (HB1 & S3).
+    destruct (zlen best1 <? n_parents); [discriminate|].
+    destruct (read_distinct (Z.to_nat n_parents) (zlen best1) [] t3) as [[idx t4]|] eqn:ED; cbn [bind fst snd] in H; [|discriminate].
+    destruct (map_res (nth_nowrap best1) idx) as [parents|] eqn:EP; cbn [bind] in H; [|discriminate].
+    pose proof (map_res_nth_forall _ _ _ _ HB1 EP) as HPar.
+    pose proof (read_distinct_suffix _ _ _ _ _ _ ED) as S4.
+    assert (Hn4 : nan_free t4).
+    { eapply nan_free_suffix; [|exact Hn1]. eapply is_suffix_trans; eassumption. }
+    destruct (make_offspring_ok parents HPar _ _ _ _ _ _ Hn4 H) as (A & B). split; [exact A|].
+    eapply is_suffix_trans; [exact B|]. eapply is_suffix_trans; [exact S4|]. eapply is_suffix_trans; [exact S3|apply is_suffix_cons].
+  Qed.
+
+  Theorem ga_iterate_ok mut n_parents n_off news queue t p t' c queue' : Forall (in_box sp) news -> Forall emit queue -> nan_free t ->
+    ga_iterate sp cons fuel rrp mut n_parents n_off news queue t = Ok (p, t', c, queue') ->
+    emit p /\ Forall emit queue' /\ is_suffix t' t.
+  Proof.
+    intros HP HQ Hn H. unfold ga_iterate in H. destruct (zlen news =? 1).
+    - destruct (hill_iterate sp cons fuel rrp t) as [[[q t0] c0]|] eqn:EH; cbn [bind] in H; [|discriminate]. inversion H; subst.
+      destruct (hill_iterate_ok _ _ _ _ Hn EH) as (A & B). split; [exact A|]. split; assumption.
+    - destruct t as [|[r| | | |] [|[| um ue | | |] t1]]; try discriminate.
+      destruct (negb ((0 <=? r) && (r <? zlen news))); [discriminate|].
+      assert (Hn1 : nan_free t1) by (do 2 apply nan_free_tail in Hn; exact Hn).
+      assert (S1 : is_suffix t1 (DZ r :: DF um ue :: t1)) by (eapply is_suffix_trans; apply is_suffix_cons).
+      destruct (dyadic_le um ue (fst mut) (snd mut)).
+      + destruct (hill_iterate sp cons fuel rrp t1) as [[[q t0] c0]|] eqn:EH; cbn [bind] in H; [|discriminate]. inversion H; subst.
+        destruct (hill_iterate_ok _ _ _ _ Hn1 EH) as (A & B). split; [exact A|]. split; [assumption|eapply is_suffix_trans; eassumption].
+      + destruct queue as [|q rest].
+        * destruct (ga_crossover sp cons fuel n_parents n_off news t1) as [[[qs t2] c2]|] eqn:EC; cbn [bind] in H; [|discriminate].
+          destruct (ga_crossover_ok _ _ _ _ _ _ _ HP Hn1 EC) as (A & B).
+          destruct qs as [|q rest]; [discriminate|]. inversion H; subst. inversion A; subst.
+          split; [assumption|]. split; [assumption|eapply is_suffix_trans; eassumption].
+        * inversion H; subst. inversion HQ; subst. split; [assumption|]. split; assumption.
+  Qed.
+
+  (* ---------- pattern search ---------- *)
+  Theorem pattern_iterate_ok queue t p t' c queue' : Forall (in_box sp) queue -> nan_free t ->
+    pattern_iterate sp cons fuel rrp queue t = Ok (p, t', c, queue') -> emit p /\ Forall (in_box sp) queue' /\ is_suffix t' t /\ 0 < c.
+  Proof.
+    intros HQ Hn H. unfold pattern_iterate in H. destruct t as [|[| um ue | | |] t0]; try discriminate.
+    pose proof (nan_free_tail _ _ Hn) as Hn0.
+    destruct (dyadic_gt (fst rrp) (snd rrp) um ue).
+    - destruct (move_random sp cons fuel t0 0) as [[[q t1] c1]|] eqn:E; cbn [bind] in H; [|discriminate]. inversion H; subst.
+      destruct (move_random_ok _ _ _ _ _ _ _ _ E) as (A & B & C). split; [exact A|]. split; [exact HQ|].
+      split; [eapply is_suffix_trans; [exact B|apply is_suffix_cons]|lia].
+    - destruct queue as [|q rest]; [discriminate|]. inversion HQ; subst.
+      destruct (or_climb sp cons fuel q t0 0) as [[[q1 t1] c1]|] eqn:E; cbn [bind] in H; [|discriminate]. inversion H; subst.
+      destruct (or_climb_ok _ _ _ _ _ _ H2 Hn0 E) as (A & B & C). split; [exact A|]. split; [assumption|].
+      split; [eapply is_suffix_trans; [exact B|apply is_suffix_cons]|lia].
+  Qed.
 End PopFacts.
